@@ -1,6 +1,6 @@
 \* exhaustive check of the repaired tiff / tiff-json writer model, scaled sizes, file cells tracked (quick tier of C15)
 CONSTANTS NDev = 1 NPaths = 3 Kinds1 = {"tiff", "sbs"} MaxCycles = 2 MaxAppends = 2 MaxPacket = 2 Real = FALSE NKinds = 3
-  NScripts = 4 MaxFaultAt = 0 MaxDepth = 4 FIX_TIFF = 1 FIX_SBS = 1 FIX_META = 1 MaxFd = 5 Ghost = TRUE Export = FALSE
+  NScripts = 4 MaxFaultAt = 0 MaxDepth = 4 FIX_TIFF = 1 FIX_SBS = 1 FIX_META = 1 SetRunning = TRUE FIX_SET = 1 MaxFd = 5 Ghost = TRUE Export = FALSE
 SPECIFICATION Spec
 VIEW View
 INVARIANTS NoErr NoCrash TypeOK OwnsItsFile Cursors InnerFollowsOuter
